@@ -8,5 +8,5 @@ SPECIFICATION CSpec
 CONSTRAINT CProgress
 POSTCONDITION CAccept
 CHECK_DEADLOCK FALSE
-\* Auxiliary invariants TypeOK, M_SeqSane, NotYetWritten, CurIsWinner, M_Accounted and "the model explains every
+\* Auxiliary invariants TypeOK, SeqSane, NotYetWritten, CurIsWinner, SequencesAccounted and "the model explains every
 \* property failure by a named deviation" are evaluated on every conforming state by CProgress (collected)
